@@ -75,7 +75,7 @@ def standin_frameops(prop, tier, seed, scratch, root):
     rr = RP.run_bin('frame_ops', scratch, [], timeout=600)
     row = {'function': 'Frame::get, Frame::find (std iterator adaptors with closures: ASSUMED contracts C19.get / C19.find); also exercises fields/fields_len/is_empty/into_iter',
            'engine': 'native exhaustive small-scope differential run against a Vec model (replay/src/bin/frame_ops.rs)', 'label': 'bounded',
-           'bound': 'all frames of <= 4 fields over keys {a, A, b} x all sequences of <= 3 get operations over those keys; after every operation find for every key, forward/backward/mixed/owned iteration, fields_len, is_empty',
+           'bound': 'all frames of <= 4 fields over keys {a, A, b} x all sequences of <= 3 get operations over those keys; after every operation find for every key, forward/backward/mixed/owned iteration, fields_len, is_empty; then all responses of <= 4 frames with/without a trailing error: frames() / into_iter() forward, backward and every front/back split, successful_frames, is_error, into_single_frame',
            'violations': []}
     if not rr.get('ran'):
         row['undecided'] = rr.get('reason', 'did not run'); return row
@@ -89,7 +89,7 @@ def standin_frameops(prop, tier, seed, scratch, root):
     row['result'] = 'DEVIATION'; row['deviation'] = j
     args = ['case', j['fields'], j['ops']]
     rep = RP.run_bin('frame_ops', scratch, args); rep.pop('full_output', None)
-    row['violations'].append({'props': ['C19'], 'ob': 'C19.frame.model', 'fn': 'Frame', 'message': 'Frame deviates from the ordered multimap model: ' + j.get('why', ''),
+    row['violations'].append({'props': ['C19'], 'ob': 'C19.frame.model', 'fn': 'Frame', 'message': ('Response deviates from the model `frames in order, then the error`: ' if j['fields'].startswith('r') else 'Frame deviates from the ordered multimap model: ') + j.get('why', ''),
                               'where': 'mpd_protocol/src/response/frame.rs', 'rendered': json.dumps(j), 'input': {'fields': j['fields'], 'ops': j['ops']},
                               'replayed': rep, 'replay_bin': 'frame_ops', 'replay_args': args})
     return row
